@@ -93,8 +93,17 @@ func (a *Activation) callContract(ins *ssa.Call, g *ssa.Function, spec *FuncSpec
 	for i, p := range g.Params {
 		env.vars[p.Name()] = args[i]
 	}
+	argLookup := func(n string) (Val, bool) {
+		if strings.HasPrefix(n, "arg") {
+			var k int
+			if _, err := fmt.Sscanf(n, "arg%d", &k); err == nil && k >= 0 && k < len(args) && fmt.Sprintf("arg%d", k) == n {
+				return args[k], true
+			}
+		}
+		return Val{}, false
+	}
 	if a.depth == 0 {
-		a.ghostAt("before "+site, st, *rc, nil, nil)
+		a.ghostAt("before "+site, st, *rc, nil, argLookup)
 		pre = st.clone()
 		env.st, env.old = pre, pre
 	}
